@@ -204,6 +204,14 @@ def root_cause(backend, mode, outcome, lines, frames, umsg, fclass, mverdict=Non
             if kind in ("heap-use-after-free", "stack-buffer-overflow", "SEGV", "heap-buffer-overflow", "global-buffer-overflow",
                         "stack-buffer-underflow", "unknown-crash", "signal11") and "ADF_Read_All_Data" in S and fclass.endswith("data_type"):
                 return "mll:node-data-type-without-buffer"
+        if kind.startswith("attempting") and top.startswith("cgi_free") and fclass == "node.data_type":
+            return "mll:mt-node-leaves-data-pointer-unset"
+        if kind == "stack-buffer-overflow" and top == "ADF_Get_Dimension_Values" and "cgi_read_string" in S:
+            return "mll:string-node-dimensions-into-2-element-array"
+        if kind.startswith("ubsan-signed-integer-overflow") and top in ("cgi_read_node", "cgi_read_node_data", "cgi_read_ptset"):
+            return "mll:element-count-overflow"
+        if kind == "stack-overflow" and S & {"cgi_read_user_data", "cgi_read_family", "cgi_read_user_data_1", "cgi_read_family_1"}:
+            return "mll:nested-reader-unbounded-recursion"
         if top == "cgi_read_ptset" and kind == "heap-buffer-overflow":
             return "mll:point-range-shorter-than-2-index-dim"
         if kind.startswith("ubsan-signed-integer-overflow") and top in ("cgio_compute_data_size", "cgio_get_data_size"):
@@ -346,7 +354,7 @@ class AdfFile:
                       ("7FFFFFFF", b"7FFFFFFF"), ("80000000", b"80000000"), ("FFFFFFFF", b"FFFFFFFF"), ("00010000", b"00010000")])
             hexfield(tagn + ".entries_for_sub_nodes", p + nf[4][0], 8,
                      [("0", b"00000000"), ("1", b"00000001"), ("nsub", b"%08X" % nsub), ("nsub-1", b"%08X" % max(nsub - 1, 0)),
-                      ("2", b"00000002"), ("+8", b"%08X" % (ent + 8)), ("FFFFFFFF", b"FFFFFFFF"), ("10000000", b"10000000")])
+                      ("2", b"00000002"), ("+8", b"%08X" % (ent + 8)), ("FFFFFFFF", b"FFFFFFFF"), ("01000000", b"01000000")])
             for i, nm in ((5, "sub_node_table"), (21, "data_chunks")):
                 for lab, b, o in self.ptr_classes(p + nf[i][0], parent_of.get(p)):
                     want_ptr("%s.%s->%s" % (tagn, nm, lab), "pointer", p + nf[i][0], b, o)
@@ -682,6 +690,8 @@ def run(ck):
     for w in index:
         wdata[w["file"]] = open(os.path.join(CORPUS, w["file"]), "rb").read()
         open(os.path.join(wdir, w["file"]), "wb").write(wdata[w["file"]])
+    for n in adf_names:          # witnesses derived from m_unstr.adf reach m_struct.adf through links
+        open(os.path.join(wdir, n), "wb").write(open(os.path.join(cdir, n), "rb").read())
     # the theorems speak about AdfWalk.wit_*: the corpus files must be those byte strings
     mw = [w for w in index if w["model_witness"]]
     wl = model("".join("witness %s\n" % w["model_witness"] for w in mw))
@@ -795,6 +805,7 @@ def run(ck):
         if st != "same":
             corr_broken.append({"level": "walk", "file": name, "mutant": "(none: the valid file)", "status": st, "detail": detail})
         muts = af.mutants()
+        n_all = len(muts)
         # truncations: every length (thorough, files <= 8 KB), else a dense seeded sample with all structure boundaries
         eof = max([n["pos"] + 246 for n in af.nodes] + [t["end"] + 4 for t in af.snts + af.dcts + af.datas] + [266])
         marks = set([0, 1, 4, 24, 31, 32, 33, 101, 102, 185, 186, 187, 265, 266, eof - 1, eof, len(data) - 1])
@@ -825,7 +836,8 @@ def run(ck):
                 share = max(40 if big else 8, int(quota * len(lst) / len(muts)))
                 keep += lst if len(lst) <= share else rng.sample(lst, share)
             muts = keep
-        stats["files"][name] = {"len": len(data), "nodes": len(af.nodes), "field_mutants": len(muts), "truncations": len(tr),
+        stats["files"][name] = {"len": len(data), "nodes": len(af.nodes), "field_mutants": len(muts), "field_mutants_generated": n_all,
+                                "truncations": len(tr),
                                 "model_layout_s": round(time.time() - t0, 2)}
         for desc, cls, L in tr:
             tasks.append((name, len(tasks), desc, cls, data[:L], "trunc %d %d" % (FUEL, L), "tcheck %d" % L, True))
